@@ -255,49 +255,77 @@ INJECTIVE_ARRAY = ("tobytes", "tolist", "tostring", "dumps", "hexdigest", "diges
     min_instances=1,
 )
 def sig_injective(repo, res):
+    """compute_signature interpreted on expression objects whose point arrays differ only where a lossy rendering cannot see it."""
+    from ..absint import Interp, Node, PyNative, Raised, _PyCall
+    from ..lnodes_model import load_classes
+    from ..npmodel import NDArr, install_arrays
+
     m = repo.mod(NAMING)
     cs = m.func("compute_signature")
     res.functions.add(cs.key)
-    sl = Slicer(cs.node)
-    # array-typed locals: anything subscripted out of a parameter whose annotation mentions NDArray
-    ann = ast.unparse(cs.node.args.args[0].annotation) if cs.node.args.args and cs.node.args.args[0].annotation else ""
-    array_param = "NDArray" in ann or "ndarray" in ann
-    if not array_param:
-        res.notes.append("parameter annotation no longer mentions NDArray: array kinds inferred from the name `points` only")
-    arrays = set()
-    for v, vals in sl.defs.items():
-        for val in vals:
-            t = ast.unparse(val)
-            if re.search(r"\[1\]$", t) or "points" in v or "asarray" in t or "np.array" in t:
-                arrays.add(v)
-    if not arrays:
-        raise AnalysisError("SIG-INJECTIVE: no array-valued local (evaluation points) found in compute_signature")
-    for a in sorted(arrays):
-        key = f"{cs.key}:render:{a}"
+
+    class _Sha(PyNative):
+        """A perfect hash: the digest is the content, so two digests agree iff everything that was hashed agrees."""
+
+        def __init__(self, data=b""):
+            self.data = bytes(data)
+
+        def update(self, more):
+            self.data += bytes(more)
+
+        def hexdigest(self):
+            return "H<" + self.data.hex() + ">"
+
+    expr = Node("Expr", name="e")
+
+    def sig(points, tag="t"):
+        it = install_arrays(Interp(repo, load_classes(repo), primary=NAMING))
+        for nm in ("sha1", "sha256", "md5", "sha512"):
+            it.overrides[f"hashlib.{nm}"] = _PyCall(lambda d=b"", **k: _Sha(d))
+        for pre in ("ufl.algorithms.", "ufl.algorithms.analysis."):
+            for fn_ in ("extract_coefficients", "extract_constants", "extract_arguments"):
+                it.overrides[pre + fn_] = _PyCall(lambda e_: [])
+        it.overrides["ufl.algorithms.analysis.unique_tuple"] = _PyCall(lambda d: tuple(d))
+        it.overrides["ufl.domain.extract_domains"] = _PyCall(lambda e_: [])
+        it.overrides["ufl.corealg.traversal.unique_pre_traversal"] = _PyCall(lambda e_: [])
+        it.overrides["ufl.algorithms.signature.compute_expression_signature"] = _PyCall(lambda e_, rn: "EXPRSIG")
+        it.overrides["ffcx.__version__"] = "0.0"
+        it.overrides["ffcx.codegeneration.get_signature"] = _PyCall(lambda: "HDR")
+        return it.call_f(cs, [[(expr, points)], tag])
+
+    def arr(shape, fn):
+        if len(shape) == 2:
+            return NDArr([[fn(i, j) for j in range(shape[1])] for i in range(shape[0])], shape)
+        return NDArr([fn(i, 0) for i in range(shape[0])], shape)
+
+    pairs = {
+        "points differing in the 11th significant digit": (arr((1, 2), lambda i, j: 0.25), arr((1, 2), lambda i, j: 0.25 + (1e-10 if j else 0))),
+        "same coordinates, shapes (2,3) and (3,2)": (arr((2, 3), lambda i, j: (3 * i + j) / 8), arr((3, 2), lambda i, j: (2 * i + j) / 8)),
+        "1200 points differing in the middle": (arr((1200, 1), lambda i, j: i / 2048), arr((1200, 1), lambda i, j: (i + (1 if i == 600 else 0) / 2) / 2048)),
+        "different point sets of equal shape": (arr((2, 2), lambda i, j: 0.125 * (i + j)), arr((2, 2), lambda i, j: 0.125 * (i + 2 * j))),
+    }
+    for label, (p1, p2) in pairs.items():
+        key = f"{cs.key}:exact-encoding:{label}"
         res.ob(key)
-        for n in walk_no_nested(cs.node):
-            bad = None
-            if isinstance(n, ast.Call) and (call_name(n) or "") in LOSSY_RENDERERS and n.args and isinstance(n.args[0], ast.Name) and n.args[0].id == a:
-                bad = ast.unparse(n)
-            if isinstance(n, ast.FormattedValue) and isinstance(n.value, ast.Name) and n.value.id == a:
-                bad = "f-string of " + a
-            if isinstance(n, ast.Call) and isinstance(n.func, ast.Attribute) and n.func.attr in ("__repr__", "__str__") and isinstance(n.func.value, ast.Name) and n.func.value.id == a:
-                bad = ast.unparse(n)
-            if isinstance(n, ast.Call) and (call_name(n) or "") in ("np.array2string", "np.array_str", "np.array_repr"):
-                bad = ast.unparse(n)
-            if bad:
-                res.fail(key, f"evaluation points enter the signature through `{bad}`: NumPy prints 8 significant "
-                         "digits and elides arrays over 1000 elements, so different point sets share a name "
-                         "(e.g. [[.25,.25]] vs [[.25,.25+1e-10]])", m.line(n))
-        # positive requirement: the array reaches the hash through an exact encoding
-        text = _full_slice_text(cs.node, _hash_calls(cs.node)[0].args[0])
-        key2 = f"{cs.key}:exact-encoding:{a}"
-        res.ob(key2)
-        if a in text and not any(f".{enc}(" in text for enc in INJECTIVE_ARRAY) and not re.search(rf"(repr|str)\({a}\)", text):
-            res.fail(key2, f"`{a}` reaches the signature without an exact encoding (tobytes/tolist)", m.line(cs.node))
-        # shape must be hashed together with the raw bytes
-        if f".tobytes(" in text and "shape" not in text:
-            res.fail(key2, "points are hashed as raw bytes without their shape: (2,3) and (3,2) point arrays collide", m.line(cs.node))
+        try:
+            s1, s2, s1b = sig(p1), sig(p2), sig(p1.copy())
+        except Raised as e:
+            res.fail(key, f"compute_signature raises ({e.what}) on an expression with {label}", m.line(cs.node))
+            continue
+        if s1 == s2:
+            res.fail(key, f"two expressions with {label} get the same signature: the evaluation points enter it through a lossy rendering (NumPy prints 8 significant "
+                     "digits and elides arrays over 1000 elements; raw bytes without the shape make (2,3) and (3,2) collide), so different point sets share a name "
+                     "and a cached module", m.line(cs.node))
+        if s1 != s1b:
+            res.fail(key, "the same expression and points give two different signatures", m.line(cs.node))
+    key = f"{cs.key}:tag"
+    res.ob(key)
+    p0 = pairs["different point sets of equal shape"][0]
+    try:
+        if sig(p0, "a") == sig(p0, "b"):
+            res.fail(key, "the tag does not enter the signature: objects distinguished only by their tag (form id, prefix, integral type) share a name", m.line(cs.node))
+    except Raised as e:
+        res.fail(key, f"compute_signature raises ({e.what})", m.line(cs.node))
 
 
 @rule(
